@@ -24,9 +24,8 @@ Lemma ops_from_snoc_inv : forall h pos c m,
 Proof.
   induction h as [|e h IH]; intros pos c m; cbn.
   - rewrite Nat.add_0_r. reflexivity.
-  - destruct e as [c2 m2|c2 v2]; rewrite IH; cbn.
-    + rewrite find_res_snoc_inv. do 3 f_equal. lia.
-    + do 3 f_equal. lia.
+  - replace (pos + S (List.length h)) with (S pos + List.length h) by lia.
+    destruct e as [c2 m2|c2 v2]; rewrite IH; cbn; [rewrite find_res_snoc_inv|]; reflexivity.
 Qed.
 
 (* no event of client c in h *)
